@@ -115,6 +115,7 @@ structure Peer where
   extMeta : Bool := false              -- extension handshake advertised ut_metadata
   extSize : Nat := 0
   pexOn : Bool := false                -- pe.PEX ≠ nil
+  served : List (Nat × Nat × Nat) := []   -- peerwriter.servedRequests
   deriving Repr, Inhabited
 
 /-- A running piece download (`pieceDownloaders[pe]`). -/
@@ -516,12 +517,16 @@ def handlePeerMessage (m : M) (k : Nat) (msg : Msg) : M :=
       match s.findPeer k with
       | none => m
       | some p =>
+        -- SendPiece: the writer answers a request it has already served with a reject
+        let sendPiece (m : M) : M :=
+          if p.served.contains (i, b, l) then send m k s!"reject:{i}:{b}:{l}"
+          else send (onSt m (·.updPeer k fun p => { p with served := (i, b, l) :: p.served })) k s!"piece:{i}:{b}:{l}:ok"
         if !(s.done.getD i false) then send m k s!"reject:{i}:{b}:{l}"
         else if p.clientChoking then
           if p.fast then
-            if p.sentAF.contains i then send m k s!"piece:{i}:{b}:{l}:ok" else send m k s!"reject:{i}:{b}:{l}"
+            if p.sentAF.contains i then sendPiece m else send m k s!"reject:{i}:{b}:{l}"
           else m
-        else send m k s!"piece:{i}:{b}:{l}:ok"
+        else sendPiece m
   | .reject i b l =>
     if !ready then closePeerM m k
     else if i ≥ s.n then closePeerM m k
